@@ -233,6 +233,7 @@ def check_session(checker, lines):
                 f = Finding("session", "line %d of a path witness: the real retained session deviates from the machine specification: %s" % (i + 1, bad),
                             SEP.join(wl), SEP.join(lines), role="session")
                 f.line, f.ok_idx = i, []
+                f.expected = list(exp)  # what the machine specification computes for every line of this witness (replayed by confirm_session)
                 findings.append(f)
                 break
     st["queries"] += eng.queries
@@ -254,6 +255,29 @@ def confirm_session(native, finding):
         finding.confirmed = True
         finding.native = {"why": ["the real retained session crashes or hangs the process: %r" % (str(e)[-120:],)]}
         return True
+    expected = getattr(finding, "expected", None)
+    if expected:
+        # a deviation of the real session from the machine specification (tied to the real VM::run by the Kani contracts):
+        # confirmed if the real session reproduces it
+        from .core import differs
+        for i, (r, e) in enumerate(zip(sess, expected)):
+            if e is None:
+                break
+            no = native_outcome(r) if "result" in r else ("err", r["error"]["kind"])
+            out = r.get("output", "") if "result" in r else ""
+            bad = None
+            if no[0] != e[0]:
+                bad = "real %r, specification %r" % (no[:2], e[:2])
+            elif no[0] == "ok" and differs(no[1], e[1]) is True:
+                bad = "real value %r, specification %r" % (no[1], e[1])
+            elif no[0] == "err" and no[1] != e[1]:
+                bad = "real error %s, specification %s" % (no[1], e[1])
+            elif out != e[2]:
+                bad = "real output %r, specification %r" % (out[:60], e[2][:60])
+            if bad:
+                finding.confirmed = True
+                finding.native = {"why": ["line %d (%r) of the retained session: %s (reproduced)" % (i + 1, lines[i][:60], bad)]}
+                return True
     ok_idx = []
     for i, s in enumerate(sess):
         if "result" in s:
